@@ -140,6 +140,11 @@ def run(ck, facts, tier):
                  detail=paths.fmt_paths(got)[:600], sample="days<0 ? roll(date - Days(|days|)) : roll(date + Days(days))")
     except Unsupported as e:
         ck.fail(r5, "add_days", "rule could not be established (%s)" % e, where("add_days"))
+    # the counting loops step with C04's roll primitives and settle with its settlement searches: their rules are necessary conditions here too
+    from rules import c04
+    nd, tb = list(ck.not_decided), list(ck.trusted)
+    c04.run(ck, facts, tier)
+    ck.not_decided[:], ck.trusted[:] = nd, tb
     ck.not_decided += ["the inverse law and the count as arithmetic facts about a concrete calendar (they follow from R05.2 + C04's R04.1 but are not separately evaluated)",
                        "i8 extremes are C20's", "termination"]
     ck.trusted += ["lib/cel.py loop summarisation", "C04 (roll primitives are next/previous business day searches)"]
